@@ -20,13 +20,14 @@ pub enum Op {
 	/// fdatasync / fsync of a file
 	Sync(String),
 	/// msync of a mapping of the file
-	Msync(String),
+	/// (file, offset, length): the pages overlapping the range become durable
+	Msync(String, u64, u64),
 	Mark(String),
 }
 
 impl Op {
 	pub fn mutates(&self) -> bool {
-		!matches!(self, Op::Sync(_) | Op::Msync(_) | Op::Mark(_))
+		!matches!(self, Op::Sync(_) | Op::Msync(..) | Op::Mark(_))
 	}
 	pub fn short(&self) -> String {
 		match self {
@@ -37,7 +38,7 @@ impl Op {
 			Op::Unlink(p) => format!("unlink {}", p),
 			Op::Rename(a, b) => format!("rename {} -> {}", a, b),
 			Op::Sync(p) => format!("fsync {}", p),
-			Op::Msync(p) => format!("msync {}", p),
+			Op::Msync(p, o, l) => format!("msync {} [{}, +{})", p, o, l),
 			Op::Mark(m) => format!("mark {}", m),
 		}
 	}
@@ -48,7 +49,7 @@ impl Op {
 static REC: AtomicBool = AtomicBool::new(false);
 static OPS: Mutex<Vec<Op>> = Mutex::new(Vec::new());
 static FDS: Mutex<Option<HashMap<i32, String>>> = Mutex::new(None);
-static MAPS: Mutex<Vec<(usize, usize, String)>> = Mutex::new(Vec::new());
+static MAPS: Mutex<Vec<(usize, usize, String, u64)>> = Mutex::new(Vec::new());
 static PREFIX: Mutex<String> = Mutex::new(String::new());
 /// syscall-level fault injection: fail (EIO) every interposed mutating call from the n-th on
 pub static FAULT_AFTER: std::sync::atomic::AtomicI64 = std::sync::atomic::AtomicI64::new(-1);
@@ -236,7 +237,7 @@ pub unsafe extern "C" fn mmap(a: *mut libc::c_void, l: usize, p: i32, fl: i32, f
 			let r = f(a, l, p, fl, fd, o);
 			if r != libc::MAP_FAILED {
 				REC.store(false, SeqCst);
-				MAPS.lock().unwrap().push((r as usize, l, path));
+				MAPS.lock().unwrap().push((r as usize, l, path, o as u64));
 				REC.store(true, SeqCst);
 			}
 			return r
@@ -250,15 +251,15 @@ pub unsafe extern "C" fn msync(a: *mut libc::c_void, l: usize, fl: i32) -> i32 {
 	let f = real!("msync", unsafe extern "C" fn(*mut libc::c_void, usize, i32) -> i32);
 	if REC.load(SeqCst) {
 		REC.store(false, SeqCst);
-		let m = MAPS.lock().unwrap().iter().rev().find(|(s, n, _)| (a as usize) >= *s && (a as usize) < *s + *n).map(|x| x.2.clone());
+		let m = MAPS.lock().unwrap().iter().rev().find(|(s, n, _, _)| (a as usize) >= *s && (a as usize) < *s + *n).map(|x| (x.2.clone(), x.3 + (a as usize - x.0) as u64));
 		REC.store(true, SeqCst);
-		if let Some(p) = m {
+		if let Some((p, off)) = m {
 			if inject() {
 				return -1
 			}
 			let r = f(a, l, fl);
 			if r == 0 {
-				rec(Op::Msync(p));
+				rec(Op::Msync(p, off, l as u64));
 			}
 			return r
 		}
@@ -270,7 +271,7 @@ pub unsafe extern "C" fn msync(a: *mut libc::c_void, l: usize, fl: i32) -> i32 {
 pub unsafe extern "C" fn munmap(a: *mut libc::c_void, l: usize) -> i32 {
 	if REC.load(SeqCst) {
 		REC.store(false, SeqCst);
-		MAPS.lock().unwrap().retain(|(s, _, _)| *s != a as usize);
+		MAPS.lock().unwrap().retain(|(s, _, _, _)| *s != a as usize);
 		REC.store(true, SeqCst);
 	}
 	real!("munmap", unsafe extern "C" fn(*mut libc::c_void, usize) -> i32)(a, l)
@@ -422,6 +423,23 @@ impl SFile {
 
 pub type Shadow = BTreeMap<String, SFile>;
 
+/// msync of [off, off+len): every page overlapping the range takes its current (volatile) content in `dur`
+pub fn msync_range(vol: &Shadow, dur: &mut Shadow, p: &str, off: u64, len: u64) {
+	if let Some(f) = vol.get(p) {
+		let d = dur.entry(p.to_string()).or_default();
+		d.len = f.len;
+		let first = off / PAGE;
+		let last = (off + len + PAGE - 1) / PAGE;
+		let stale: Vec<u64> = d.pages.range(first..last).map(|(k, _)| *k).collect();
+		for k in stale {
+			d.pages.remove(&k);
+		}
+		for (k, pg) in f.pages.range(first..last) {
+			d.pages.insert(*k, pg.clone());
+		}
+	}
+}
+
 pub fn apply(sh: &mut Shadow, op: &Op) {
 	match op {
 		Op::Create(p) => {
@@ -437,7 +455,7 @@ pub fn apply(sh: &mut Shadow, op: &Op) {
 			if let Some(f) = sh.remove(a) {
 				sh.insert(b.clone(), f);
 			},
-		Op::Sync(_) | Op::Msync(_) | Op::Mark(_) => (),
+		Op::Sync(_) | Op::Msync(..) | Op::Mark(_) => (),
 	}
 }
 
